@@ -3,7 +3,7 @@
    Spec side: Sem.eval_c — the arithmetic truth function in which every variable or
    sub-proposition with constant bounds (fixed by declaration or by a previous assume())
    stands for its constant; Sem.inb_c — free leaves are within their bounds. *)
-Require Import Puan.Base Puan.Plog Puan.Sem Puan.ReduceFacts.
+Require Import Puan.Base Puan.Plog Puan.Sem Puan.ReduceFacts Puan.ReduceLink.
 Open Scope string_scope.
 
 Theorem C08_sem :
@@ -31,3 +31,25 @@ Example C08_nonvacuous :
   eval_c c08_env c08_m = 1 /\ eval_c c08_env (reduce c08_m) = 1.
 Proof. cbn. repeat split; lia. Qed.
 Print Assumptions C08_nonvacuous.
+
+(* "possibly after assumptions": reduce(assume(d)) composed with C07 — for EVERY tree, every assumption d (leaf and
+   sub-proposition ids, points and ranges) and every environment of the leaves inside the assumed intervals, the
+   reduced assumed model evaluates to what the ORIGINAL model evaluates to under the assumption (Sem.eval_d d) *)
+Theorem C08_after_assume :
+  forall (d : interp) (env : ident -> Z) (p : prop),
+    ok_signs p = true -> compat d [] env p ->
+    eval_c env (reduce (assume d p)) = eval_d d env p.
+Proof. exact reduce_after_assume. Qed.
+Print Assumptions C08_after_assume.
+
+(* non-vacuity: A = All(B = Any(x,y), z) with {B: 1} assumed: the reduction is the single leaf constraint on z *)
+Definition c08_a : prop :=
+  Node (mk KAll) "A" false 0 1 1 2 [Node (mk KAny) "B" false 0 1 1 1 [Var "x" 0 1; Var "y" 0 1]; Var "z" 0 1].
+Definition c08_d : interp := [("B", (1, 1))].
+Definition c08_env2 : ident -> Z := fun i => if String.eqb i "z" then 1 else 0.
+Example C08_after_assume_nonvacuous :
+  ok_signs c08_a = true /\ compat c08_d [] c08_env2 c08_a /\
+  reduce (assume c08_d c08_a) = Node m0 "A" false 0 1 1 1 [Var "z" 0 1] /\
+  eval_c c08_env2 (reduce (assume c08_d c08_a)) = 1 /\ eval_d c08_d c08_env2 c08_a = 1 /\ eval c08_env2 c08_a = 0.
+Proof. cbn. repeat split; try lia; try discriminate; try reflexivity; try (intros H; exfalso; apply H; reflexivity). Qed.
+Print Assumptions C08_after_assume_nonvacuous.
